@@ -57,13 +57,13 @@ def run(tier):
         for seq in gen(res, n, ks, maxrows, cap, rng):
             scen.append(scenario(n, seq, rng, rng.choice(["null", "missing", "mix"])))
     # seeded longer free inputs: many keys, exact multiples and remainders
-    for _ in range(60 if quick else 400):
+    for _ in range(60 if quick else 2000):
         n = rng.choice([1, 2, 3, 4, 5])
         keys = [("k%d" % i,) for i in range(rng.choice([1, 2, 5, 9]))]
         L = rng.choice([n * 6, n * 7 + 1, 23, 40])
         scen.append(scenario(n, [rng.choice(keys) for _ in range(L)], rng, "mix"))
     # HAVING on top of the counting window: a batch the predicate rejects is consumed all the same; the key's next batch starts from empty
-    for _ in range(60 if quick else 600):
+    for _ in range(60 if quick else 3000):
         n = rng.choice([2, 3])
         keys = [("k%d" % i,) for i in range(rng.choice([1, 2, 3]))]
         sc = scenario(n, [rng.choice(keys) for _ in range(rng.choice([n * 5, n * 6 + 1, 17]))], rng, "mix")
@@ -84,7 +84,7 @@ def run(tier):
         scen.append(sc)
     # bursts: the producer outruns the counting-window goroutine (held at its first row) by more rows than the window's
     # input queue holds (50 by default): every row still counts, in order
-    for _ in range(8 if quick else 60):
+    for _ in range(8 if quick else 200):
         n = rng.choice([2, 3, 5])
         keys = [("k%d" % i,) for i in range(rng.choice([1, 2, 4]))]
         sc = scenario(n, [rng.choice(keys) for _ in range(rng.choice([70, 90, 130]))], rng, "mix")
